@@ -16,12 +16,13 @@ import (
 // CFConfig configures the control-flow engine (CALLEE fault enumeration against
 // the reference model) for one property.
 type CFConfig struct {
-	Prop        string
-	JudgeClean  bool // judge the fault-free run against the model (order / exactly-once / defers)
-	Faults      bool // enumerate a raise at every dynamic slot position
-	KindsPerPos int  // error kinds tried per position (chosen by tape); 0 = all
-	Profile     func(t *tape.Tape) gen.Profile
-	Relayout    bool // sometimes spread argument lists over lines and use CRLF / lone-CR line ends
+	Prop            string
+	JudgeClean      bool // judge the fault-free run against the model (order / exactly-once / defers)
+	Faults          bool // enumerate a raise at every dynamic slot position
+	KindsPerPos     int  // error kinds tried per position (chosen by tape); 0 = all
+	Profile         func(t *tape.Tape) gen.Profile
+	JudgeCleanRaise bool // judge the fault-free run when the model says it ends in an error of the program's own
+	Relayout        bool // sometimes spread argument lists over lines and use CRLF / lone-CR line ends
 }
 
 // Viol is one observed violation.
@@ -407,7 +408,9 @@ func CFRun(it *harness.Interp, cfg CFConfig, t *tape.Tape, seed, run uint64, st 
 	}
 	j0 := judge(prog, exp0, r0, "")
 	if j0.what != "" {
-		if cfg.JudgeClean {
+		// the fault-free run is C08's and C15's business - unless the program fails by itself (an
+		// unbound name, `_`, a division by zero ...): then how that error travels is fail-stop, too
+		if cfg.JudgeClean || (cfg.JudgeCleanRaise && exp0.Raised != nil) {
 			v := mk("clean", j0, -1, "")
 			where := pathOf(exp0, j0.diffID, j0.diffPos, roleOf(prog, j0.diffID))
 			if j0.what == "outcome" && j0.diffPos < 0 && exp0.Raised != nil && exp0.RaisePath != "" {
